@@ -88,7 +88,7 @@ Section SortBy.
   Qed.
 
   (** stability: the rows that tie with [x] keep their input order *)
-  Definition ties (x r : row) : bool := cmp x r =? 0.
+  Notation ties := (ties cmp).
   Lemma insert_by_ties x r : In x D -> In r D -> forall l, Forall (fun y => In y D) l ->
     StronglySorted (fun a b => le a b) l ->
     filter (ties x) (insert_by cmp r l) = filter (ties x) (r :: l).
@@ -192,4 +192,92 @@ Proof.
   unfold sgn_le in H. apply orb_true_iff in H as [H|H].
   - apply negb_true_iff, andb_false_iff in H as [H|H]; apply Z.leb_gt in H; lia.
   - now apply Z.leb_le.
+Qed.
+
+(** * Int64 key columns: the comparator is a lexicographic order on integer vectors *)
+Fixpoint lex_cmp (a b : list Z) : Z :=
+  match a, b with
+  | x :: a', y :: b' => let c := cmp_z x y in if c =? 0 then lex_cmp a' b' else c
+  | _, _ => 0
+  end.
+Definition rk (k : skey) (r : row) : list Z :=
+  let p := match nth_error r (sk_col k) with
+           | Some (VInt z) => (0, z)
+           | _ => (match sk_nulls k with NullsFirst => -1 | NullsLast => 1 end, 0)
+           end in
+  match sk_dir k with Asc => [fst p; snd p] | Desc => [- fst p; - snd p] end.
+Definition rks (keys : list skey) (r : row) : list Z := flat_map (fun k => rk k r) keys.
+
+Lemma cmp_z_cases x y : (x < y /\ cmp_z x y = -1) \/ (x = y /\ cmp_z x y = 0) \/ (y < x /\ cmp_z x y = 1).
+Proof. unfold cmp_z. destruct (Z.ltb_spec x y), (Z.ltb_spec y x); lia. Qed.
+Lemma cmp_z_opp x y : cmp_z (- x) (- y) = - cmp_z x y.
+Proof. destruct (cmp_z_cases x y) as [[A ->]|[[A ->]|[A ->]]], (cmp_z_cases (- x) (- y)) as [[B ->]|[[B ->]|[B ->]]]; lia. Qed.
+
+Lemma key_cmp_rk k a b : int_key_col (sk_col k) a = true -> int_key_col (sk_col k) b = true ->
+  key_cmp k a b = lex_cmp (rk k a) (rk k b).
+Proof.
+  unfold int_key_col, key_cmp, rk, cmp_with_nulls. intros Ha Hb.
+  destruct (nth_error a (sk_col k)) as [[| |x| | |]|]; try discriminate Ha;
+  destruct (nth_error b (sk_col k)) as [[| |y| | |]|]; try discriminate Hb;
+  cbn [is_nullish sort_cmp_values fst snd];
+  destruct (sk_dir k), (sk_nulls k); cbn [lex_cmp fst snd]; try reflexivity;
+  destruct (cmp_z_cases x y) as [[A E]|[[A E]|[A E]]]; rewrite ?cmp_z_opp, ?E; cbn; try reflexivity; try lia.
+Qed.
+
+Lemma lex_cmp_app2 x1 x2 y1 y2 l m :
+  lex_cmp ([x1; x2] ++ l) ([y1; y2] ++ m)
+  = if lex_cmp [x1; x2] [y1; y2] =? 0 then lex_cmp l m else lex_cmp [x1; x2] [y1; y2].
+Proof.
+  cbn [app lex_cmp].
+  destruct (cmp_z_cases x1 y1) as [[A ->]|[[A ->]|[A ->]]]; cbn; try reflexivity.
+  destruct (cmp_z_cases x2 y2) as [[B ->]|[[B ->]|[B ->]]]; cbn; reflexivity.
+Qed.
+Lemma rk_shape k r : exists x1 x2, rk k r = [x1; x2].
+Proof. unfold rk. destruct (sk_dir k); eexists; eexists; reflexivity. Qed.
+
+Lemma rows_cmp_rks keys a b :
+  forallb (fun k => int_key_col (sk_col k) a) keys = true ->
+  forallb (fun k => int_key_col (sk_col k) b) keys = true ->
+  rows_cmp keys a b = lex_cmp (rks keys a) (rks keys b).
+Proof.
+  induction keys as [|k t IH]; [reflexivity|]. cbn [forallb]. intros Ha Hb.
+  apply andb_true_iff in Ha as [Ha1 Ha2]. apply andb_true_iff in Hb as [Hb1 Hb2].
+  cbn [rows_cmp]. unfold rks. cbn [flat_map]. fold (rks t a) (rks t b).
+  destruct (rk_shape k a) as (x1 & x2 & Ea), (rk_shape k b) as (y1 & y2 & Eb).
+  rewrite (key_cmp_rk k a b Ha1 Hb1), Ea, Eb, lex_cmp_app2, (IH Ha2 Hb2). reflexivity.
+Qed.
+
+Lemma lex_cmp_trans : forall a b c, length a = length b -> length b = length c ->
+  lex_cmp a b <= 0 -> lex_cmp b c <= 0 -> lex_cmp a c <= 0.
+Proof.
+  induction a as [|x a IH]; intros [|y b] [|z c] L1 L2; cbn [length] in *; try discriminate; try (cbn; lia).
+  cbn [lex_cmp].
+  destruct (cmp_z_cases x y) as [[A ->]|[[A ->]|[A ->]]], (cmp_z_cases y z) as [[B ->]|[[B ->]|[B ->]]],
+           (cmp_z_cases x z) as [[C ->]|[[C ->]|[C ->]]]; cbn; try lia.
+  intros H1 H2. apply (IH b c); congruence.
+Qed.
+Lemma rks_length keys : forall a b, length (rks keys a) = length (rks keys b).
+Proof.
+  intros a b. unfold rks. induction keys as [|k t IH]; [reflexivity|]. cbn [flat_map].
+  destruct (rk_shape k a) as (x1 & x2 & ->), (rk_shape k b) as (y1 & y2 & ->). cbn [app length]. now rewrite IH.
+Qed.
+
+Lemma int_keyed_trans keys rows : int_keyed keys rows = true ->
+  forall a b c, In a rows -> In b rows -> In c rows ->
+    rows_cmp keys a b <= 0 -> rows_cmp keys b c <= 0 -> rows_cmp keys a c <= 0.
+Proof.
+  unfold int_keyed. rewrite forallb_forall. intros H a b c Ha Hb Hc.
+  rewrite (rows_cmp_rks keys a b), (rows_cmp_rks keys b c), (rows_cmp_rks keys a c) by auto.
+  apply lex_cmp_trans; apply rks_length.
+Qed.
+
+Lemma sort_spec_int_keys_l keys cs : int_keyed keys (rows_of cs) = true ->
+  let rows := rows_of cs in
+  let out := rows_of (drain_sort keys cs) in
+  Permutation out rows
+  /\ StronglySorted (fun a b => rows_cmp keys a b <= 0) out
+  /\ forall x, In x rows -> filter (ties (rows_cmp keys) x) out = filter (ties (rows_cmp keys) x) rows.
+Proof.
+  intros H rows out. destruct (sort_spec_l keys cs) as [P Q]. split; [exact P|].
+  apply Q. now apply int_keyed_trans.
 Qed.
